@@ -682,6 +682,7 @@ func (self *ReplicationClient) InitSync() error {
 	self.aofLock = NewAofLock()
 	err = self.sendStarted()
 	if err != nil {
+		self.aofLock = nil
 		return err
 	}
 
